@@ -71,8 +71,8 @@ def alphabet(seed: int = 0) -> List[Tuple[Any, ...]]:
         for c in CONTENTS:
             ops.append(("write_file", k, c))
         ops.append(("write_json", k))
-        for name in ("read_file", "read_json", "open_file", "open_seekable", "exists", "delete_file", "get_size",
-                     "get_modified_time"):
+        for name in ("read_file", "read_json", "open_file", "open_seekable", "open_seekable_tell", "exists", "delete_file",
+                     "get_size", "get_modified_time"):
             ops.append((name, k))
     ops.append(("exists", "d/"))  # S3's documented directory form: judged against its own spec only
     for p in LIST_PREFIXES:
@@ -196,6 +196,12 @@ def apply_op(b: Any, op: Tuple[Any, ...]) -> Tuple[Any, ...]:
                 v = f.read()
             finally:
                 f.close()
+        elif name == "open_seekable_tell":  # open, ask for the position, close - no byte is read
+            f = b.open_seekable(op[1])
+            try:
+                v = int(f.tell())
+            finally:
+                f.close()
         elif name == "exists":
             v = b.exists(op[1])
         elif name == "list_files":
@@ -295,6 +301,8 @@ def spec(op: Tuple[Any, ...], files: Dict[str, bytes]) -> Tuple[Optional[Tuple[A
     if name == "exists":
         hit = k in files or (k.endswith("/") and any(f.startswith(k) for f in files))
         return ("ok", "bool", hit), post
+    if name == "open_seekable_tell":
+        return (("ok", "int", 0) if k in files else nf), post
     if name == "get_size":
         return (("ok", "int", len(files[k])) if k in files else nf), post
     if name == "get_modified_time":
